@@ -114,10 +114,52 @@ func StripConv(v ssa.Value) ssa.Value {
 			v = x.X
 		case *ssa.MakeInterface:
 			v = x.X
+		case *ssa.ChangeInterface:
+			v = x.X
 		default:
 			return v
 		}
 	}
+}
+
+// ResultValues returns the values result #idx of fn may carry at its returns, resolving
+// results spilled to locals (functions with defer) and phis. Zero values of spilled
+// results (never stored) are not included.
+func ResultValues(fn *ssa.Function, idx int) []ssa.Value {
+	seen := map[ssa.Value]bool{}
+	var out []ssa.Value
+	var add func(v ssa.Value, d int)
+	add = func(v ssa.Value, d int) {
+		if v == nil || seen[v] || d > 6 {
+			return
+		}
+		seen[v] = true
+		switch x := v.(type) {
+		case *ssa.Phi:
+			for _, e := range x.Edges {
+				add(e, d+1)
+			}
+			return
+		case *ssa.UnOp:
+			if a, ok := x.X.(*ssa.Alloc); ok && x.Op == token.MUL && !a.Heap {
+				if refs := a.Referrers(); refs != nil {
+					for _, r := range *refs {
+						if st, ok := r.(*ssa.Store); ok && st.Addr == a {
+							add(st.Val, d+1)
+						}
+					}
+				}
+				return
+			}
+		}
+		out = append(out, v)
+	}
+	Instrs(fn, func(in ssa.Instruction) {
+		if ret, ok := in.(*ssa.Return); ok && idx < len(ret.Results) {
+			add(ret.Results[idx], 0)
+		}
+	})
+	return out
 }
 
 // Atom is a normalised condition: the underlying value with a negation flag.
